@@ -286,8 +286,9 @@ class GeoIndex:
         if not return_distance:
             return pairs
 
-        if not pairs.any():
-            return pairs, pairs
+        if not pairs.size:
+            # No neighbours at all: return consistent empty arrays
+            return np.empty((2, 0), dtype=int), np.array([])
 
         distances = np.hstack([
             distances_to_query
